@@ -745,6 +745,35 @@ def r_conv(f):
         R.inst(b.ident, "the data-length guard dominates every normal return (%d guards)" % len(lg), ok)
         if not ok:
             R.fail(b.ident, "len-guard", "%s can return normally without having compared the dimensions with data.len() (%s): a buffer of the wrong length is accepted for some input instead of panicking" % (b.ident, "an early return precedes the check" if lg else "no such guard"), b.where())
+    # a crate type returned by the by-value into_iter (a forwarding wrapper around vec::IntoIter): each of its iterator methods
+    # forwards within its own direction family - a back-family method (next_back, nth_back, rfold ..) that steps the inner
+    # iterator from the front (or the reverse) yields the cells in the wrong order
+    from .rules_cursor import FRONT_NAMES, BACK_NAMES
+    ib = f.get("TooDee as IntoIterator::into_iter")
+    if ib is not None and ib.locals:
+        rty = norm_ty(str(ib.locals[0]))
+        wname = head(rty)
+        if wname and any(a["id"].split("::")[-1] == wname for a in f.adts):
+            for wb in f.fn_bodies:
+                if wb.kind == "Closure" or wb.self_head != wname or wb.trait_head not in ("Iterator", "DoubleEndedIterator") or not wb.blocks:
+                    continue
+                n += 1
+                fam = "back" if wb.trait_head == "DoubleEndedIterator" else "front"
+                wd = Dfx(wb)
+                wrong = []
+                for _, t_, fn_ in wb.calls():
+                    if not (fn_ and t_["args"]):
+                        continue
+                    nm_ = fn_["name"]
+                    recv = wd.expr(t_["args"][0])
+                    on_inner = any(isinstance(x, tuple) and x[0] == "field" and strip(x[1]) in (("param", 1), ("deref", ("param", 1))) for x in walk(recv))
+                    if not on_inner:
+                        continue
+                    if (fam == "back" and nm_ in FRONT_NAMES and nm_ not in ("count",)) or (fam == "front" and nm_ in BACK_NAMES and wb.name != "last"):
+                        wrong.append(nm_)
+                R.inst(wb.ident, "forwards to the inner iterator within the %s family" % fam, not wrong)
+                for nm_ in wrong[:1]:
+                    R.fail(wb.ident, "forward:%s->%s" % (wb.name, nm_), "%s (a %s-end method) steps the wrapped iterator with %s, i.e. from the other end: the cells come out in the wrong order" % (wb.ident, fam, nm_), wb.where())
     # derive provenance
     for tr in ("Clone::clone", "PartialEq::eq", "Hash::hash"):
         b = f.get("TooDee as %s" % tr)
@@ -860,6 +889,25 @@ def r_conv(f):
             R.inst(b.ident, "hand-written eq looks at data, num_rows and num_cols of both operands", not miss)
             if miss:
                 R.fail(b.ident, "eq-fields:%s" % ",".join(miss), "%s is hand-written and never looks at %s of both operands: arrays that differ there compare equal" % (b.ident, ", ".join(miss)), b.where())
+            # an overridden `ne` is the negation of `eq`: it calls eq, or it looks at the same three fields of both operands
+            nb = f.get("TooDee as PartialEq::ne")
+            if nb is not None and nb.blocks and not nb.d.get("derived"):
+                n += 1
+                calls_eq = any(fn_ and fn_["name"] == "eq" and f.crate_fn_for_call(fn_) is not None and f.crate_fn_for_call(fn_).ident == "TooDee as PartialEq::eq" for _, _, fn_ in nb.calls())
+                got_ = {1: set(), 2: set()}
+                for bl_ in nb.blocks:
+                    for pl in _all_places([bl_["stmts"], bl_["term"]]):
+                        if pl["local"] in (1, 2):
+                            for pe in pl["proj"]:
+                                if pe["k"] == "field":
+                                    got_[pl["local"]].add(pe["i"]); break
+                lacking_ = sorted(nm for nm in three if fidx[nm] not in got_[1] or fidx[nm] not in got_[2])
+                okn = calls_eq or not lacking_
+                R.inst(nb.ident, "an overridden ne is !eq (calls eq, or examines data, num_rows and num_cols of both operands)", okn)
+                if not okn:
+                    R.fail(nb.ident, "ne-fields:%s" % ",".join(lacking_), "%s is overridden and never looks at %s of both operands: for arrays that differ only there `a != b` and `a == b` are both false" % (nb.ident, ", ".join(lacking_)), nb.where())
+            if miss:
+                pass
             else:
                 # path-wise: wherever the answer is a literal `true`, all three fields of both operands have been looked at on the way
                 # (a shortcut on the buffer's address - equal for all zero-sized / empty buffers - or on one field is not equality)
@@ -1974,6 +2022,67 @@ def r_noshift(f):
     R.inst(b.ident, "every exit that no element-moving call can reach (%d) is taken only with both components of mid zero" % nexit[0], ok)
     if bad:
         R.fail(b.ident, "exit-without-shift", "%s can return without having moved any element while (col_mid, row_mid) may be %s: a pending column or row shift is dropped" % (b.ident, sorted({(x[1], x[2]) for x in bad})), b.where())
+    # norm-first: `mid.0 == num_cols` / `mid.1 == num_rows` are valid arguments that mean 0; the function maps them to 0 (a local set
+    # to 0 under the true edge of `local == dim`).  Until that test has been passed the local may still hold the dimension itself,
+    # so no arithmetic and no rotation amount may be computed from it on a path that has not gone through the test
+    domn_ = b.dominators()
+    ndefs_ = {}
+    for _, _, st in b.stmts():
+        if st["k"] == "assign" and not st["p"]["proj"]:
+            ndefs_.setdefault(st["p"]["local"], []).append(st)
+
+    def src_local(o_):
+        """the named local an operand copies (through single-def temporaries)"""
+        for _ in range(4):
+            if o_["k"] not in ("copy", "move") or o_["p"]["proj"]:
+                return None
+            l_ = o_["p"]["local"]
+            ds_ = ndefs_.get(l_, [])
+            if len(ds_) == 1 and ds_[0]["rv"]["k"] == "use" and ds_[0]["rv"]["o"]["k"] in ("copy", "move") and not ds_[0]["rv"]["o"]["p"]["proj"] and l_ > b.arg_count:
+                o_ = ds_[0]["rv"]["o"]
+                continue
+            return l_
+        return None
+    comps_ = {}
+    for sb_, bl_ in enumerate(b.blocks):
+        tt_ = bl_["term"]
+        if not tt_ or tt_["k"] != "switch" or bl_["cleanup"]:
+            continue
+        dl_ = tt_["discr"]
+        if dl_["k"] not in ("copy", "move") or dl_["p"]["proj"]:
+            continue
+        defs_ = ndefs_.get(dl_["p"]["local"], [])
+        if len(defs_) != 1 or defs_[0]["rv"]["k"] != "binop" or defs_[0]["rv"]["op"] != "Eq":
+            continue
+        tm_ = [(int(a_), b2) for a_, b2 in tt_["targets"]]
+        tsucc = tt_["otherwise"] if any(v_ == 0 for v_, _ in tm_) else dict(tm_).get(1)
+        if tsucc is None:
+            continue
+        for o_ in (defs_[0]["rv"]["l"], defs_[0]["rv"]["r"]):
+            L_ = src_local(o_)
+            if L_ is None:
+                continue
+            zeroed = any(st["k"] == "assign" and st["p"]["local"] == L_ and not st["p"]["proj"] and st["rv"]["k"] == "use" and st["rv"]["o"]["k"] == "const" and re.match(r"^(const )?0_usize$", str(st["rv"]["o"].get("val", ""))) is not None
+                         for x_ in range(len(b.blocks)) if x_ == tsucc or tsucc in domn_.get(x_, set()) for st in b.blocks[x_]["stmts"])
+            if zeroed:
+                comps_[L_] = sb_
+    early = []
+    for L_, sb_ in comps_.items():
+        for bi_, bl_ in enumerate(b.blocks):
+            if bl_["cleanup"] or bi_ == sb_ or sb_ in domn_.get(bi_, set()) or bi_ not in b.reachable(0):
+                continue
+            for st in bl_["stmts"]:
+                if st["k"] == "assign" and st["rv"]["k"] == "binop" and re.match(r"^(Mul|Add|Sub|Rem|Div|Shl)", st["rv"]["op"]):
+                    if any(src_local(o_) == L_ for o_ in (st["rv"]["l"], st["rv"]["r"])):
+                        early.append((L_, st["span"], st["rv"]["op"]))
+            tt_ = bl_["term"]
+            if tt_ and tt_["k"] == "call" and (tt_["func"].get("fn") or {}).get("name") in ("rotate_left", "rotate_right", "split_at_mut", "split_at"):
+                if any(src_local(a_) == L_ for a_ in tt_["args"][1:]):
+                    early.append((L_, tt_["span"], tt_["func"]["fn"]["name"]))
+    if comps_:
+        R.inst(b.ident, "norm-first: no arithmetic / rotation amount is computed from a translation component before its `== dimension -> 0` test (%d components)" % len(comps_), not early)
+        for L_, sp_, op_ in early[:1]:
+            R.fail(b.ident, "norm-first:%s" % op_.replace("WithOverflow", ""), "%s computes with a translation component (%s) on a path that has not yet passed its wrap-around test (`== dimension` means 0): for mid equal to the dimension - a valid argument - the value used is the dimension itself, one whole turn too many" % (b.ident, op_.replace("WithOverflow", "")), b.where(sp_))
     return R, 1
 
 
